@@ -28,13 +28,14 @@ type fetchCase struct {
 	DelayA []int // completion-order perturbation for run A / run B
 	DelayB []int
 	DiffB  bool // bases given with -diff_base
+	Units  bool // the sources record the same sample type in different units (s, ns, ms by position)
 	Format string
 }
 
 var sizes = []int{1, 2, 3, 5, 127, 128, 129, 130, 255, 256, 257, 300}
 
 func genCase(t *rapid.T) *fetchCase {
-	c := &fetchCase{Own: rapid.Bool().Draw(t, "own"), DiffB: rapid.Bool().Draw(t, "diffbase"), Format: rapid.SampledFrom([]string{"proto", "proto", "raw", "top"}).Draw(t, "format")}
+	c := &fetchCase{Units: rapid.IntRange(0, 3).Draw(t, "units") == 0, Own: rapid.Bool().Draw(t, "own"), DiffB: rapid.Bool().Draw(t, "diffbase"), Format: rapid.SampledFrom([]string{"proto", "proto", "raw", "top"}).Draw(t, "format")}
 	c.N = rapid.OneOf(rapid.SampledFrom(sizes), rapid.IntRange(1, 12)).Draw(t, "n")
 	if rapid.IntRange(0, 3).Draw(t, "hasbase") == 0 {
 		c.NB = rapid.OneOf(rapid.SampledFrom([]int{1, 2, 129}), rapid.IntRange(1, 4)).Draw(t, "nb")
@@ -76,7 +77,10 @@ func genCase(t *rapid.T) *fetchCase {
 }
 
 // mkProfile gives source i its own comment, its own stack and a stack shared with everyone.
-func mkProfile(i int, base bool) *profile.Profile {
+var unitCycle = []string{"seconds", "nanoseconds", "milliseconds"}
+var unitFactor = map[string]int64{"seconds": 1e9, "milliseconds": 1e6, "nanoseconds": 1, "count": 1}
+
+func mkProfile(i int, base bool, units bool) *profile.Profile {
 	fn := &profile.Function{ID: 1, Name: "shared", SystemName: "shared", Filename: "s.go"}
 	own := &profile.Function{ID: 2, Name: fmt.Sprintf("own%d", i), SystemName: fmt.Sprintf("own%d", i), Filename: "o.go"}
 	m := &profile.Mapping{ID: 1, Start: 0x400000, Limit: 0x500000, File: "/bin/app", HasFunctions: true}
@@ -86,8 +90,12 @@ func mkProfile(i int, base bool) *profile.Profile {
 	if base {
 		tag = "base"
 	}
+	st := &profile.ValueType{Type: "samples", Unit: "count"}
+	if units {
+		st = &profile.ValueType{Type: "wall", Unit: unitCycle[i%len(unitCycle)]}
+	}
 	return &profile.Profile{
-		SampleType: []*profile.ValueType{{Type: "samples", Unit: "count"}},
+		SampleType: []*profile.ValueType{st},
 		PeriodType: &profile.ValueType{Type: "cpu", Unit: "nanoseconds"}, Period: 1,
 		Comments: []string{fmt.Sprintf("%s-%03d", tag, i)},
 		Mapping:  []*profile.Mapping{m}, Function: []*profile.Function{fn, own}, Location: []*profile.Location{l1, l2},
@@ -147,7 +155,7 @@ func run(c *fetchCase, delays []int, skipFailed bool) outcome {
 		if skipFailed && fail != 0 {
 			return
 		}
-		p := mkProfile(i, base)
+		p := mkProfile(i, base, c.Units)
 		tag := "s"
 		if base {
 			tag = "b"
@@ -191,14 +199,14 @@ func run(c *fetchCase, delays []int, skipFailed bool) outcome {
 			case 3:
 				// valid encoding, invalid profile: two values for one sample type
 				s.Prof = nil
-				bad := mkProfile(i, base)
+				bad := mkProfile(i, base, c.Units)
 				bad.Sample[0].Value = []int64{1, 2}
 				var b bytes.Buffer
 				bad.WriteUncompressed(&b)
 				s.Data = b.Bytes()
 			case 5:
 				// the plug-in hands over a profile object that is not valid (two values for one sample type)
-				bad := mkProfile(i, base)
+				bad := mkProfile(i, base, c.Units)
 				bad.Sample[0].Value = []int64{1, 2}
 				s.Prof = bad
 			}
@@ -332,25 +340,32 @@ func check(c *fetchCase, o *vk.Obs) []string {
 				if first < 0 {
 					first = i
 				}
-				for _, s := range mkProfile(i, false).Sample {
-					want.Add(model.StackKey(s, true), s.Value, 1)
+				sp := mkProfile(i, false, c.Units)
+				for _, s := range sp.Sample {
+					want.Add(model.StackKey(s, true), s.Value, unitFactor[sp.SampleType[0].Unit])
 				}
 				wantComments = append(wantComments, fmt.Sprintf("src-%03d", i))
 			}
 		}
 		for i, f := range c.FailB {
 			if f == 0 {
-				for _, s := range mkProfile(i, true).Sample {
+				bp := mkProfile(i, true, c.Units)
+				for _, s := range bp.Sample {
 					if c.DiffB {
 						s.Label = map[string][]string{"pprof::base": {"true"}}
 					}
-					want.Add(model.StackKey(s, true), s.Value, -1)
+					want.Add(model.StackKey(s, true), s.Value, -unitFactor[bp.SampleType[0].Unit])
 				}
 				wantComments = append(wantComments, fmt.Sprintf("base-%03d", i))
 			}
 		}
 		want = want.DropZero()
-		got := model.CanonOf(p, true).DropZero()
+		got := model.Canon{}
+		for _, s := range p.Sample {
+			// values in base units of the sample type (the merge converts to the finest unit among its inputs)
+			got.Add(model.StackKey(s, true), s.Value, unitFactor[p.SampleType[0].Unit])
+		}
+		got = got.DropZero()
 		if !want.Equal(got) {
 			e.Addf("the merged profile is not the sum of exactly the sources that could be fetched (%d/%d ok, %d/%d bases):\n%s", okS, c.N, okB, c.NB, want.Diff(got))
 		}
@@ -399,5 +414,5 @@ func sorted(s []string) []string {
 
 func TestPropFetch(t *testing.T) {
 	vk.Main(t, vk.Spec[fetchCase]{ID: "C16", Facet: "fetch", Quick: 600, Thorough: 3000, Gen: genCase, Check: check, Journal: true,
-		Rule: "source lists of 1..300 (sizes biased to 1,2,127,128,129,130,255,256,257,300) and base lists of 0..129 (-base or -diff_base), every source with its own comment, header and stack; failure subsets (none/few/many/all/the whole first chunk of 128) of kinds {fetcher error or missing file, garbage body, invalid-but-decodable profile or HTTP 500, HTTP 404, invalid profile object handed over by the plug-in}; through the Fetcher plug-in or through pprof's own file/HTTP fetcher with a scripted RoundTripper; per-source delays perturb the completion order; oracle: canonical sum of exactly the successful sources minus bases, comments and header precedence in command-line order, one error line per failed source plus the 'Fetched k of n' line, error iff nothing (or no base) could be fetched, byte-identical output under a second completion order and with the failing sources left off; non-trivial = >=2 successes and >=1 failure, or a list crossing 128"})
+		Rule: "source lists of 1..300 (sizes biased to 1,2,127,128,129,130,255,256,257,300) and base lists of 0..129 (-base or -diff_base), every source with its own comment, header and stack, in a quarter of the cases with the sample type in a different unit per source (s, ns, ms); failure subsets (none/few/many/all/the whole first chunk of 128) of kinds {fetcher error or missing file, garbage body, invalid-but-decodable profile or HTTP 500, HTTP 404, invalid profile object handed over by the plug-in}; through the Fetcher plug-in or through pprof's own file/HTTP fetcher with a scripted RoundTripper; per-source delays perturb the completion order; oracle: canonical sum of exactly the successful sources minus bases, comments and header precedence in command-line order, one error line per failed source plus the 'Fetched k of n' line, error iff nothing (or no base) could be fetched, byte-identical output under a second completion order and with the failing sources left off; non-trivial = >=2 successes and >=1 failure, or a list crossing 128"})
 }
